@@ -327,6 +327,28 @@ def rule_keys(ctx, rep, rid="R-C08-keys", files=None, floor=15, what="every name
             r.ok(inst, where, "keyed by a number (a position or an index): no spelling involved")
         else:
             r.finding(inst, where, "table keyed by %s: lookups become sensitive to the spelling of identifiers" % k)
+    # a number is a fine key when it is a position or an index; a *digest* of the contents is not: two different contents with the same digest
+    # become one entry (a cache keyed by a hash of the graph answers for another graph)
+    from vlib.numflow import sources_of
+    TABLE = re.compile(r"(?:HashMap|BTreeMap|HashSet|BTreeSet|IndexMap)(?:<[^>]*>)?::(get|get_mut|insert|contains_key|contains|entry|remove|get_or_insert_with)$")
+    kd = 0
+    for b in sorted(ctx.prog.bodies.values(), key=lambda x: x.id):
+        if b.f["crate"] not in ("ironplc_analyzer", "ironplc_parser") or "::test" in norm(b.id):
+            continue
+        if not files or not any(x in b.f["file"] for x in files):
+            continue        # (not a matter of spelling: decided where the rule is used for a table's identity - C02, C06, C07 - not for C08)
+        for c in sorted(b.calls(), key=lambda c: (c.loc[0], c.loc[1])):
+            if not c.callee or not TABLE.search(c.callee) or len(c.args) < 2:
+                continue
+            k0 = re.sub(r"\s", "", (c.ga or "").strip("[]")).split(",")[0]
+            if not re.fullmatch(r"(?:usize|isize|[iu](?:8|16|32|64|128))", k0):
+                continue
+            src = sources_of(ctx.prog, b, c.args[1])
+            dg = sorted({x[1] for x in src if x[0] == "call" and re.search(r"Hasher(?:>)?::finish|BuildHasher(?:>)?::hash_one|::finish$", x[1])})
+            if dg:
+                kd += 1
+                r.finding("%s|%s keyed by a digest#%d" % (norm(b.id).split("::")[-1], c.callee.split("::")[-1], kd), loc_str(b.f, c.loc),
+                          "the key of this table is a hash of the contents (%s): different contents with the same hash share an entry" % ", ".join(d.split("::")[-1] for d in dg))
     # phf keyword/stdlib sets must be queried with the lower-cased spelling
     for b in ([] if files else ctx.prog.bodies.values()):
         if b.f["crate"] not in ("ironplc_analyzer", "ironplc_parser"):
